@@ -3,6 +3,7 @@ import re, itertools
 from core import *  # noqa
 from roles import *  # noqa
 import roles, shared, symex, predeval
+import queue_rules as Q
 
 EXPLANATION = (
     "Effect analysis over the mono call graph plus decision walks on MIR: on every call of the parser's success path (ClientConnection::next/read, "
@@ -188,6 +189,10 @@ def c11_rest(ctx, facts, nr, memo):
     recvs = [bb for bb, t in tk.calls() if call_is(t, RECV)]
     for bb in recvs:
         ctx.ob("C11.4", "%s|wait-only-on-tls-branch" % tk.id, "the only wait in the connection task sits on that dead branch", shared.tls_branch_dead(ctx, tk, bb), tk.loc(bb))
+    # ---- C11.5 a read-ahead request reaches a waiting application thread at once: every push is followed by a wake-up
+    # on every path (a conditional wake-up leaves later pipelined requests in the queue until an earlier one is answered
+    # and its thread comes back to recv)
+    Q.rule_notify_after_push(ctx, "C11.5")
     return {}
 
 
